@@ -428,7 +428,18 @@ def check_C10(chk, tier):
     for pat in pats:
         nn = 3 if pat < 512 else 4
         for cp in (1, 2, 3): cs.append(fcase(nn, nn, pat, colperm=cp, tune="t122", symcols=0, sym=(pat >> 2) & 1 if cp == 2 else 0))
+    c10_large_orderings(chk, tier)
     run_phase(chk, "builtin-orderings/bijection (enumerated)", H + "h_factor.c", cs, ["C10."], prec="d", budget_s=200, bounds="all 512 3x3 patterns x {MMD_ATA, MMD_AT_PLUS_A, COLAMD}, concrete values (integer-only code: enumeration)", validate_samples=0)
+
+
+def c10_large_orderings(chk, tier):
+    cs = []
+    for n in ((40, 120, 200) if tier == "quick" else (20, 40, 90, 120, 150, 200, 300)):
+        for fam in (0, 1, 2, 3):
+            for var in (0, 1, 2, 3):
+                for cp in (1, 2, 3): cs.append((n, fam, var, cp))
+    run_phase(chk, "builtin-orderings on large structured patterns (enumerated)", H + "h_order.c", cs, ["C10."], prec="d", budget_s=120 if tier == "quick" else 900, validate_samples=0, crash_is_violation=True,
+              bounds="n = 40..200 (20..300 thorough): bordered / arrow+empty columns / dense rows and columns / band + dense rows, x {MMD_ATA, MMD_AT_PLUS_A, COLAMD}; integer-only code: enumeration, no solver verdict")
 
 
 # ------------------------------------------------------------------------------------------------ C14 kernels
